@@ -15,7 +15,9 @@
    table selected by name, rendered), OAutoNew n (the same through auto.New,
    which drops the error), ORender k, OReSet k n
    (SetDecorationNamed on the k-th table of the goroutine, rendered),
-   OSetDec k d (SetDecoration on it, rendered).  A listing is a value: nothing
+   OSetDec k d (SetDecoration on it, rendered).  Names are arbitrary byte
+   strings; the tables of a history may have any content ([body] stands for
+   the rest of the renderer: outputs are named by the decoration that draws them).  A listing is a value: nothing
    a caller does to a returned listing is an operation, so later listings
    cannot depend on it (the harness scribbles over every listing it gets).
 
@@ -24,7 +26,7 @@
    initialised with ([init], the built-ins), else Empty.  [body] is the rest
    of the text renderer past its EmptyDecoration guard (any function). *)
 From Coq Require Import Sorting.Sorted Sorting.Permutation.
-From Tab Require Import Model.Registry Spec.RegistrySpec Proofs.RegistryProofs.
+From Tab Require Import Model.Registry Spec.RegistrySpec Proofs.RegistryProofs Proofs.RegistryR6.
 
 (* A lookup returns the decoration most recently registered under that name
    before it (or the initial content, or Empty), in every interleaving. *)
@@ -144,6 +146,55 @@ Theorem c17_obs_sound : forall body init,
 Proof. exact obs_sound. Qed.
 Print Assumptions c17_obs_sound.
 
+(* Round trip, for EVERY name (a name is any byte string: nothing depends on
+   its length or content): once RegisterDecorationName(n, d) is in the history
+   and no registration of n lies between it and a later operation, that
+   operation - by any goroutine, in every interleaving - sees d: Named returns
+   it, SetDecorationNamed / auto.New select it (error exactly when d is the
+   empty decoration), and the listing contains n. *)
+Theorem c17_roundtrip : forall body init (progs : list (list (nat * op))) tr,
+  is_merge progs tr -> forall i j g n d,
+  i < j ->
+  nth_error tr i = Some (g, OReg n d) ->
+  (forall m g' d', i < m < j -> nth_error tr m <> Some (g', OReg n d')) ->
+  forall g',
+    (nth_error tr j = Some (g', ONamed n) ->
+       nth_error (run body (init_state init) tr) j = Some (VDec d))
+ /\ (nth_error tr j = Some (g', OSet n) ->
+       nth_error (run body (init_state init) tr) j = Some (VSet (dec_is_empty d) (spec_render body d)))
+ /\ (nth_error tr j = Some (g', OAutoNew n) ->
+       nth_error (run body (init_state init) tr) j = Some (VRender (spec_render body d)))
+ /\ (NoDup (map fst init) -> nth_error tr j = Some (g', ONames) ->
+       exists l, nth_error (run body (init_state init) tr) j = Some (VNames l) /\ In n l).
+Proof. exact roundtrip. Qed.
+Print Assumptions c17_roundtrip.
+
+(* Names are exact: what a lookup of n gives depends on the registrations of
+   exactly n (the same bytes) and on nothing else in the history - no other
+   name, however similar (same length, a prefix, one byte off), can stand in
+   for it or hide it. *)
+Theorem c17_name_exact : forall init ops n,
+  spec_named init ops n = spec_named init (filter (is_reg_of n) ops) n
+  /\ forall o, is_reg_of n o = true <-> exists d, o = OReg n d.
+Proof. exact name_exact. Qed.
+Print Assumptions c17_name_exact.
+
+(* Locality: what goroutine g does and sees ([view g]: its lookups, listings,
+   selections by name and every render of its own tables, in order) in any
+   interleaving is exactly what it does and sees in the history from which
+   every operation of every other goroutine has been deleted except their
+   registrations ([concerns g]).  Goroutines share nothing but the content of
+   the registry: nobody's render, lookup or listing changes anything for
+   anybody else.  (For the Go code this is the absence of shared mutable state
+   in the renderer and the registry's readers - validated by the -race runs on
+   tables of the goroutines' own, harness/c17_r6.go.) *)
+Theorem c17_local : forall body init (progs : list (list (nat * op))) tr g,
+  is_merge progs tr ->
+  view g tr (run body (init_state init) tr)
+  = view g (filter (concerns g) tr) (run body (init_state init) (filter (concerns g) tr)).
+Proof. exact local. Qed.
+Print Assumptions c17_local.
+
 (* non-vacuity: two goroutines race to register "x" (65 vs 66) while a third
    looks it up; the overlapping history is accepted, the same history with a
    stale read after both registrations ended is rejected; and a sequential run *)
@@ -166,4 +217,24 @@ Example c17_example :
      = [VSet true (Ok ([], true)); VRender (Ok ([66], false)); VSet true (Ok ([], true)); VRender (Ok ([], true));
         VUnit; VSet false (Ok ([65], false)); VUnit; VSet false (Ok ([67], false));
         VNames [[99;115;118]; [104;116;109;108]; [106;115;111;110]; [109;97;114;107;100;111;119;110]; [110;111;110;101]; x]].
+Proof. cbv zeta. repeat split; vm_compute; reflexivity. Qed.
+
+
+(* non-vacuity (round 6): a 70-byte name and the 69-byte name that is its
+   prefix; goroutine 1 registers the long one, goroutine 0 looks both up,
+   selects the long one and renders while goroutine 2 renders and lists in
+   between; goroutine 0's view is the same without goroutine 2's operations *)
+Example c17_example_r6 :
+  let body := fun d => match d with DVal id true => Ok [id] | _ => Err end in
+  let long := repeat 97 70 in
+  let short := repeat 97 69 in
+  let tr := [(0%nat, ONamed long); (1%nat, OReg long (DVal 65 true)); (2%nat, OSet long); (0%nat, ONamed long);
+             (2%nat, ONames); (0%nat, ONamed short); (0%nat, OSet long); (2%nat, ORender 0%nat); (0%nat, ORender 0%nat)] in
+  view 0 tr (run body (init_state []) tr)
+  = [(ONamed long, VDec DEmpty); (ONamed long, VDec (DVal 65 true)); (ONamed short, VDec DEmpty);
+     (OSet long, VSet false (Ok ([65], false))); (ORender 0%nat, VRender (Ok ([65], false)))]
+  /\ filter (concerns 0) tr
+     = [(0%nat, ONamed long); (1%nat, OReg long (DVal 65 true)); (0%nat, ONamed long); (0%nat, ONamed short);
+        (0%nat, OSet long); (0%nat, ORender 0%nat)]
+  /\ spec_named [] (map snd tr) long = DVal 65 true /\ spec_named [] (map snd tr) short = DEmpty.
 Proof. cbv zeta. repeat split; vm_compute; reflexivity. Qed.
